@@ -844,13 +844,24 @@ def op_deb(req):
                 S["fields"][k] = v.strip()
                 if k == "Files":
                     in_files = True
-        # the block lists every member that precedes the signature member
+        # dpkg-sig --verify checks every listed file against the member of that
+        # name; the package proper (debian-binary, control.tar*, data.tar*)
+        # must be listed, earlier signature members may be
         prior = members[:members.index(m)]
-        want = [[x["md5"], x["sha1"], str(x["size"]), x["name"]] for x in prior]
+        have = {x["name"]: [x["md5"], x["sha1"], str(x["size"]), x["name"]] for x in prior}
         S["listed"] = listed
-        S["want"] = want
-        if listed != want:
-            S["problems"].append("files-lines-differ")
+        S["want"] = [have[n] for n in sorted(have)]
+        names = [f[3] for f in listed]
+        if len(set(names)) != len(names):
+            S["problems"].append("duplicate-files-line")
+        for f in listed:
+            if f[3] not in have:
+                S["problems"].append("listed-member-missing")
+            elif have[f[3]] != f:
+                S["problems"].append("files-lines-differ")
+        for x in prior:
+            if not x["name"].startswith("_gpg") and x["name"] not in names:
+                S["problems"].append("package-member-not-listed")
         res["sigs"].append(S)
     return res
 
